@@ -68,6 +68,7 @@ AtomicMove<SlotType, BUFFER_SIZE> {
     fn publish_movable(&self, item: SlotType) -> (Option<NonZeroU32>, Option<SlotType>) {
         match self.leak_slot_internal(|| false) {
             Some( (slot_ref, slot_id, len_before) ) => {
+                vp!("am.p.write", slot_id);
                 unsafe { ptr::write(slot_ref, item); }
                 self.publish_leaked_internal(slot_id);
                 (NonZeroU32::new(len_before+1), None)
@@ -88,6 +89,7 @@ AtomicMove<SlotType, BUFFER_SIZE> {
 
         match self.leak_slot_internal(report_full_fn) {
             Some( (slot_ref, slot_id, len_before) ) => {
+                vp!("am.p.write", slot_id);
                 setter_fn(slot_ref);
                 self.publish_leaked_internal(slot_id);
                 report_len_after_enqueueing_fn(len_before+1);
@@ -99,6 +101,7 @@ AtomicMove<SlotType, BUFFER_SIZE> {
 
     #[inline(always)]
     fn available_elements_count(&self) -> usize {
+        vp!("am.len");
         self.tail.load(Relaxed).overflowing_sub(self.head.load(Relaxed)).0 as usize
     }
 
@@ -130,6 +133,7 @@ AtomicMove<SlotType, BUFFER_SIZE> {
     fn consume_movable(&self) -> Option<SlotType> {
         match self.consume_leaking_internal(|| false) {
             Some( (slot_ref, slot_id, _len_before) ) => {
+                vp!("am.c.read", slot_id);
                 let item = unsafe { Some(ptr::read(slot_ref)) };
                 self.release_leaked_internal(slot_id);
                 item
@@ -177,9 +181,11 @@ AtomicMove<SlotType, BUFFER_SIZE> {
     #[inline(always)]
     pub fn leak_slot_internal(&self, report_full_fn: impl Fn() -> bool) -> Option<(&mut SlotType, /*slot_id:*/ u32, /*len_before:*/ u32)> {
         let mutable_buffer = unsafe { &mut * (self.buffer.get() as *mut Box<[SlotType; BUFFER_SIZE]>) };
+        vp!("am.p.fetch");
         let mut slot_id = self.enqueuer_tail.fetch_add(1, Relaxed);
         let mut len_before;
         loop {
+            vp!("am.p.loadhead", slot_id);
             let head = self.head.load(Relaxed);
             len_before = slot_id.overflowing_sub(head).0;
             // is queue not full?
@@ -190,6 +196,7 @@ AtomicMove<SlotType, BUFFER_SIZE> {
                 if self.try_unleak_slot_internal(slot_id) {
                     // report the queue is full (allowing a retry) if the method says we recovered from the condition
                     if report_full_fn() {
+                        vp!("am.p.fetch");
                         slot_id = self.enqueuer_tail.fetch_add(1, Relaxed);
                     } else {
                         return None;
@@ -219,6 +226,7 @@ AtomicMove<SlotType, BUFFER_SIZE> {
     /// Equivalent to [Self::publish_leaked_internal()], but without spinning
     /// (suitable for use by operations that cannot guarantee that `slot_id` will progress sequentially).
     pub fn try_publish_leaked_internal(&'a self, slot_id: u32) -> bool {
+        vp!("am.p.publish", slot_id);
         match self.tail.compare_exchange_weak(slot_id, slot_id.overflowing_add(1).0, Release, Relaxed) {
             Ok(_) => true,
             Err(_reloaded_tail) => {
@@ -234,6 +242,7 @@ AtomicMove<SlotType, BUFFER_SIZE> {
     pub fn try_publish_leaked_internal_index(&'a self, slot_index: u32) -> Option<NonZeroU32> {
         let mut slot_id = slot_index;
         loop {
+            vp!("am.r.publish", slot_id);
             match self.tail.compare_exchange_weak(slot_id, slot_id.overflowing_add(1).0, Release, Relaxed) {
                 Ok(new_tail) => break NonZeroU32::new(u32::max(1, new_tail.overflowing_sub(self.head.load(Relaxed)).0)),
                 Err(reloaded_tail) => {
@@ -256,6 +265,7 @@ AtomicMove<SlotType, BUFFER_SIZE> {
     /// IMPORTANT: for this channel, the reserve cancellation (unleaking) must be done in the reversed order.
     #[inline(always)]
     fn try_unleak_slot_internal(&'a self, slot_id: u32) -> bool {
+        vp!("am.p.recede", slot_id);
         match self.enqueuer_tail.compare_exchange_weak(slot_id.overflowing_add(1).0, slot_id, Release, Relaxed) {
             Ok(_) => true,
             Err(_reloaded_enqueuer_tail) => {
@@ -270,6 +280,7 @@ AtomicMove<SlotType, BUFFER_SIZE> {
     pub fn try_unleak_slot_index_internal(&'a self, slot_index: u32) -> bool {
         let mut slot_id = slot_index;
         loop {
+            vp!("am.r.cancel", slot_id);
             match self.enqueuer_tail.compare_exchange_weak(slot_id.overflowing_add(1).0, slot_id, Release, Relaxed) {
                 Ok(_) => break true,
                 Err(reloaded_enqueuer_tail) => {
@@ -294,9 +305,11 @@ AtomicMove<SlotType, BUFFER_SIZE> {
     fn consume_leaking_internal(&self, report_empty_fn: impl Fn() -> bool) -> Option<(&'a mut SlotType, /*slot_id:*/ u32, /*len_before:*/ i32)> {
         let mutable_buffer = unsafe { &mut * (self.buffer.get() as *mut Box<[SlotType; BUFFER_SIZE]>) };
 
+        vp!("am.c.fetch");
         let mut slot_id = self.dequeuer_head.fetch_add(1, Relaxed);
         let mut len_before;
         loop {
+            vp!("am.c.loadtail", slot_id);
             let tail = self.tail.load(Relaxed);
             len_before = tail.overflowing_sub(slot_id).0 as i32;
             // queue has elements?
@@ -305,11 +318,13 @@ AtomicMove<SlotType, BUFFER_SIZE> {
                 break Some( (slot_value, slot_id, len_before) )
             } else {
                 // queue is empty: reestablish the correct `dequeuer_head` (receding it to its original value)
+                vp!("am.c.recede", slot_id);
                 match self.dequeuer_head.compare_exchange_weak(slot_id.overflowing_add(1).0, slot_id, Relaxed, Relaxed) {
                     Ok(_) => {
                         if !report_empty_fn() {
                             return None;
                         } else {
+                            vp!("am.c.fetch");
                             slot_id = self.dequeuer_head.fetch_add(1, Relaxed);
                         }
                     },
@@ -326,6 +341,7 @@ AtomicMove<SlotType, BUFFER_SIZE> {
     #[inline(always)]
     pub fn release_leaked_internal(&self, slot_id: u32) {
         loop {
+            vp!("am.c.release", slot_id);
             match self.head.compare_exchange_weak(slot_id, slot_id.overflowing_add(1).0, Relaxed, Relaxed) {
                 Ok(_) => break,
                 Err(_reloaded_head) => {
